@@ -6,7 +6,7 @@ import (
 
 func init() {
 	register("C03", "other", "provenance (order/source of the cheater list), T6 WhoMayCall (merged API only), T20 WrapperDelegation, T17 Typestate (fork marker is absorbing)",
-		"Decides the order/source clause of the cheater list and the absorbing fork marker it relies on: the list is built by appends inside one iteration that covers every validator in canonical order (a range over the canonical sorted IDs, an indexed loop over them, or a counted loop over the indexes 0..Len()-1, left only at its end), from the merged vector clock of the block's Atropos (the consensus package never reads the per-branch clock), in each iteration the append is reached on and only on the edge where entry i of the vector is fork-detected for validator i of that same order, the appended value is that validator, and the list is not reordered before it is put into the block, which carries that list; the adapter and the index delegate the merged query unchanged. Absorbing marker: when a vector collects a parent's vector an entry is overwritten only on the edge where it is not already fork-detected, and a fork-detected source entry always yields a fork-detected entry; when branches are merged, a fork-detected branch determines the merged entry; marking one branch marks all branches of that creator. Persistence of the fork bookkeeping (C03.persist): Engine.Flush writes the BranchesInfo table on every path on which the BranchesInfo is loaded, or skips it only on a boolean engine field that every assignment to a BranchesInfo field sets on its path (consensus reloads the bookkeeping from the store after every event). That the marker is set for exactly the validators with two same-sequence events among the ancestors (vector values over all DAGs) is not decided.",
+		"Decides the order/source clause of the cheater list and the absorbing fork marker it relies on: the list is built by appends inside one iteration that covers every validator in canonical order (a range over the canonical sorted IDs, an indexed loop over them, or a counted loop over the indexes 0..Len()-1, left only at its end), from the merged vector clock of the block's Atropos (the consensus package never reads the per-branch clock), in each iteration the append is reached on and only on the edge where entry i of the vector is fork-detected for validator i of that same order, the appended value is that validator, and the list is not reordered before it is put into the block, which carries that list; the adapter and the index delegate the merged query unchanged. Absorbing marker: when a vector collects a parent's vector an entry is overwritten only on the edge where it is not already fork-detected, and a fork-detected source entry always yields a fork-detected entry; when branches are merged, a fork-detected branch determines the merged entry; marking one branch marks all branches of that creator (the branch list may be read through an accessor). Pair scan (C03.forkscan): every loop that supplies an operand of the branch-overlap test (MinSeq/Seq ranges) is left by break/goto/return only behind the edge on which the overlap test held (directly or as the result of a module predicate), so no pair of a creator's branches is skipped for another reason. Persistence of the fork bookkeeping (C03.persist): Engine.Flush writes the BranchesInfo table on every path on which the BranchesInfo is loaded, or skips it only on a boolean engine field that every assignment to a BranchesInfo field sets on its path (consensus reloads the bookkeeping from the store after every event). That the marker is set for exactly the validators with two same-sequence events among the ancestors (vector values over all DAGs) is not decided.",
 		[]string{"the merged vector has one entry per validator in validator-index order (index = position in the canonical order; C12)", "vector values themselves are C06's subject (not claimed)"},
 		runC03)
 }
@@ -75,5 +75,6 @@ func runC03(c *core.Ctx) {
 	})
 
 	c03Absorb(c)
+	c03ForkScan(c)
 	c03Persist(c)
 }
